@@ -154,7 +154,7 @@ def process_unit(unit, rlimit, seed, do_vacuity):
         return ur
     with cf.ThreadPoolExecutor(max_workers=2) as ex:
         fm = ex.submit(run_verus, path, rlimit, seed)
-        fv = ex.submit(run_verus, ur.vpath, rlimit, seed, None, 900, 0) if do_vacuity else None
+        fv = ex.submit(run_verus, ur.vpath, 3, seed, None, 900, 0) if do_vacuity else None
         ur.main = fm.result()
         ur.vac = fv.result() if fv else None
     return ur
